@@ -196,7 +196,7 @@ theorem bus_tail (libs : List CLib) (d : CDef) (sc : Scope) (c : CCable) (ident 
     have hmerge : mergeInto (busCable ident name c.lower done) (done.length + c.lower) w =
         busCable ident name c.lower (done ++ [w]) := by
       unfold mergeInto
-      have h1 : done.length + c.lower > (busCable ident name c.lower done).lower := by simp [busCable]; omega
+      have h1 : done.length + c.lower ≥ (busCable ident name c.lower done).lower := by simp [busCable]
       have h2 : ¬ (done.length + c.lower < (busCable ident name c.lower done).lower + (busCable ident name c.lower done).wires.length) := by
         simp [busCable]; omega
       simp only [h1, h2, if_true, if_false]
